@@ -107,6 +107,8 @@ func accessPath(v ssa.Value) string {
 	switch t := v.(type) {
 	case *ssa.Parameter:
 		return t.Name()
+	case *ssa.Alloc:
+		return t.Comment
 	case *ssa.FreeVar:
 		return t.Name()
 	case *ssa.UnOp:
@@ -162,11 +164,21 @@ func (x *Exec) dispatch(st *State, fr *Frame, dst ssa.Value, c *ssa.CallCommon, 
 		freeVars = fv.Clo.Bindings
 	}
 	if callee == nil {
+		if x.callCancel(st, fv) {
+			x.bindResult(fr, dst, nil)
+			return
+		}
 		x.unknownCall(st, fr, dst, c, fv, args, pos, "", c.Signature())
 		return
 	}
 	full := callee.String()
 	if x.model(st, fr, dst, callee, full, args, pos) {
+		return
+	}
+	if full == "(*github.com/sony/gobreaker.CircuitBreaker).Execute" && len(args) == 2 && args[1].Clo != nil {
+		x.note("ASSUMED gobreaker.CircuitBreaker.Execute in the closed state: calls req exactly once and returns its results unchanged")
+		x.nilCheck(st, args[0], "breaker", pos)
+		x.inline(st, fr, dst, args[1].Clo.Fn, nil, args[1].Clo.Bindings, false)
 		return
 	}
 	key := x.V.P.FuncKey(callee)
@@ -258,6 +270,20 @@ func (x *Exec) unknownCall(st *State, fr *Frame, dst ssa.Value, c *ssa.CallCommo
 		x.bindFresh(st, fr, dst, sig, "log")
 		return
 	}
+	if method == "Error" && typeName(c.Value.Type()) == "error" {
+		x.note("error.Error() of an arbitrary error value: assumed total and pure (uninterpreted function of the error)")
+		x.nilCheck(st, fv, "invoke:Error", pos)
+		if dst != nil {
+			fr.Regs[dst] = &Val{T: types.Typ[types.String], Term: UF("error$Error", SStr, fv.Term)}
+		}
+		return
+	}
+	if method != "" {
+		if fc, ok := x.V.C.Assumed["iface:"+typeName(c.Value.Type())+"."+method]; ok {
+			x.applyIfaceContract(st, fr, dst, c, fc, fv, args, pos)
+			return
+		}
+	}
 	cl := x.matchCallee(c, method)
 	label := ""
 	behaviour := ""
@@ -314,6 +340,10 @@ func (x *Exec) unknownCall(st *State, fr *Frame, dst ssa.Value, c *ssa.CallCommo
 			ps.Heap["G$panicked$"+label] = Store(arr, k, True)
 		}
 		pv := &Val{T: types.NewInterfaceType(nil, nil), Term: Fresh("panicval", SInt)}
+		if label != "" {
+			arr := ps.heapGet("G$panicval$"+label, ArrSort(SInt, SInt))
+			ps.Heap["G$panicval$"+label] = Store(arr, k, pv.Term)
+		}
 		x.startPanic(ps, pv, "callee "+what+" panics")
 	}
 	if label != "" {
@@ -399,10 +429,21 @@ func (x *Exec) applyContract(st *State, fr *Frame, dst ssa.Value, callee *ssa.Fu
 	env := x.calleeEnv(st, callee, args, freeVars)
 	for _, cl := range fc.Of("requires") {
 		g := x.V.evalBool(env, cl.E)
+		if x.mayPanic() && strings.HasPrefix(cl.Label, "panics-otherwise") {
+			// the callee panics when this precondition fails, and the caller models panics
+			if !g.IsTrue() {
+				ps := x.fork(st)
+				ps.Assume(Not(g))
+				pv := &Val{T: types.NewInterfaceType(nil, nil), Term: Fresh("panicval$pre", SInt)}
+				x.startPanic(ps, pv, "callee "+name+" panics: "+cl.Text+" violated")
+			}
+			st.Assume(g)
+			continue
+		}
 		x.oblige(st, "pre", fmt.Sprintf("pre:%s@call:%s#%d", cl.Label, name, k), g, pos, cl.Text)
 		st.Assume(g)
 	}
-	if !fc.Has("pure") {
+	if !fc.Has("pure") && x.V.mayInterfere(callee) {
 		x.interfere(st, "call "+name)
 	}
 	old := copyHeap(st.Heap)
@@ -412,13 +453,56 @@ func (x *Exec) applyContract(st *State, fr *Frame, dst ssa.Value, callee *ssa.Fu
 			x.havocModifies(st, env, cl)
 		}
 	}
+	// ghost call counters the callee's body may advance (and their logs): monotone havoc
+	if callee.Blocks != nil {
+		var effs []string
+		for k := range x.V.ghostEffects(callee) {
+			effs = append(effs, k)
+		}
+		sort.Strings(effs)
+		for _, k := range effs {
+			oc := st.ghostInt(k)
+			nc := Fresh("cnt$"+k, SInt)
+			st.Assume(Ge(nc, oc))
+			st.setGhost(k, nc)
+			lbl := k[strings.Index(k, "$")+1:]
+			for _, n := range st.heapNames() {
+				if strings.HasPrefix(n, "G$arg$"+lbl+"$") || strings.HasPrefix(n, "G$ret$"+lbl+"$") || strings.HasPrefix(n, "G$panicked$"+lbl) || strings.HasPrefix(n, "G$panicval$"+lbl) || strings.HasPrefix(n, "G$sret$"+lbl+"$") || strings.HasPrefix(n, "G$sarg$"+lbl+"$") {
+					oa := st.Heap[n]
+					na := Fresh("log$"+n, oa.Sort)
+					i := BoundVar("i", SInt)
+					st.Assume(Forall([]*Term{i}, Implies(Lt(i, oc), Eq(Select(na, i), Select(oa, i)))))
+					st.Heap[n] = na
+				}
+			}
+		}
+	}
 	// results
 	sig := callee.Signature
 	var res []*Val
+	allocates := false
+	for _, cl := range fc.Of("ensures") {
+		if strings.Contains(cl.Text, "fresh(") {
+			allocates = true
+		}
+	}
 	for i := 0; i < sig.Results().Len(); i++ {
 		v := freshVal(sig.Results().At(i).Type(), "res$"+sanitize(callee.Name()))
-		st.assumeValAllocated(v)
+		if !allocates {
+			st.assumeValAllocated(v)
+		}
 		res = append(res, v)
+	}
+	if allocates {
+		// the callee may allocate: allocation grows, results are nil or allocated afterwards
+		oa := st.ghostArr("alloc", SBool)
+		na := Fresh("alloc$after$"+sanitize(callee.Name()), ArrSort(SInt, SBool))
+		r := BoundVar("r", SInt)
+		st.Assume(Forall([]*Term{r}, Implies(Select(oa, r), Select(na, r))))
+		st.setGhostArr("alloc", na)
+		for _, v := range res {
+			st.assumeValAllocated(v)
+		}
 	}
 	env2 := x.calleeEnv(st, callee, args, freeVars)
 	env2.OldHeap = old
@@ -452,7 +536,28 @@ func (x *Exec) applyContract(st *State, fr *Frame, dst ssa.Value, callee *ssa.Fu
 		st.Assume(x.V.evalBool(env2, cl.E))
 	}
 	x.bindResult(fr, dst, res)
-	st.setGhost("ncalls$"+name, Add(st.ghostInt("ncalls$"+name), IntLit(1)))
+	lbl := name
+	for _, cl := range fc.Of("ghost") {
+		if strings.HasPrefix(cl.Text, "label ") {
+			lbl = strings.TrimSpace(strings.TrimPrefix(cl.Text, "label "))
+		}
+	}
+	n := st.ghostInt("ncalls$" + lbl)
+	if lbl != name {
+		for ri, r := range res {
+			if r.Term != nil && r.Fields == nil {
+				arr := st.heapGet(fmt.Sprintf("G$sret$%s$%d", lbl, ri), ArrSort(SInt, r.Term.Sort))
+				st.Heap[fmt.Sprintf("G$sret$%s$%d", lbl, ri)] = Store(arr, n, r.Term)
+			}
+		}
+		for ai, a := range args {
+			if a.Term != nil && a.Fields == nil {
+				arr := st.heapGet(fmt.Sprintf("G$sarg$%s$%d", lbl, ai), ArrSort(SInt, a.Term.Sort))
+				st.Heap[fmt.Sprintf("G$sarg$%s$%d", lbl, ai)] = Store(arr, n, a.Term)
+			}
+		}
+	}
+	st.setGhost("ncalls$"+lbl, Add(n, IntLit(1)))
 	st.Trace = append(st.Trace, "call "+name)
 }
 
@@ -811,7 +916,7 @@ func (x *Exec) frameObls(st *State, items []modItem, oldHeap map[string]*Term, o
 		if cur == old {
 			continue
 		}
-		if f == "G$alloc" || f == "G$wgmine" || strings.HasPrefix(f, "G$ncalls$") || strings.HasPrefix(f, "G$calls$") || strings.HasPrefix(f, "G$arg$") || strings.HasPrefix(f, "G$ret$") || strings.HasPrefix(f, "G$panicked$") || strings.HasPrefix(f, "G$visited$") || strings.HasPrefix(f, "G$spawned") {
+		if f == "G$alloc" || f == "G$wgmine" || strings.HasPrefix(f, "G$sret$") || strings.HasPrefix(f, "G$sarg$") || strings.HasPrefix(f, "G$cancelled") || strings.HasPrefix(f, "G$ncalls$") || strings.HasPrefix(f, "G$calls$") || strings.HasPrefix(f, "G$arg$") || strings.HasPrefix(f, "G$ret$") || strings.HasPrefix(f, "G$panicked$") || strings.HasPrefix(f, "G$visited$") || strings.HasPrefix(f, "G$spawned") {
 			continue
 		}
 		if x.V.isShared(f) {
@@ -1032,10 +1137,10 @@ func (x *Exec) havocLoopImpl(st *State, fr *Frame, l *Loop, cellsOnly bool) {
 					all = true
 				}
 			case *ssa.Send, *ssa.Select:
-				all = true
+				x.sharedFamilies(st, fams)
 			case *ssa.UnOp:
 				if i.Op == token.ARROW {
-					all = true
+					x.sharedFamilies(st, fams)
 				}
 			case *ssa.MakeMap, *ssa.MakeChan, *ssa.MakeSlice, *ssa.MakeClosure, *ssa.Alloc, *ssa.MakeInterface:
 				fams["G$alloc"] = true
@@ -1120,7 +1225,16 @@ func (x *Exec) havocLoopImpl(st *State, fr *Frame, l *Loop, cellsOnly bool) {
 
 // staticCallEffects adds the heap families a call inside a loop may modify; false = unknown (havoc all).
 func (x *Exec) staticCallEffects(st *State, c *ssa.CallCommon, fams map[string]bool, depth int) bool {
-	shared := func() {
+	shared := func() { x.sharedFamilies(st, fams) }
+	if c == nil {
+		shared()
+		return true
+	}
+	return x.staticCallEffects2(st, c, fams, depth, shared)
+}
+
+func (x *Exec) sharedFamilies(st *State, fams map[string]bool) {
+	{
 		// interference: monitored families and channel/waitgroup ghost state
 		for _, n := range st.heapNames() {
 			if x.V.isShared(n) || strings.HasPrefix(n, "G$calls$") || strings.HasPrefix(n, "G$arg$") || strings.HasPrefix(n, "G$ret$") || strings.HasPrefix(n, "G$panicked$") || strings.HasPrefix(n, "G$ncalls$") || strings.HasPrefix(n, "G$spawn") || strings.HasPrefix(n, "G$sen") || strings.HasPrefix(n, "G$recv") {
@@ -1149,6 +1263,9 @@ func (x *Exec) staticCallEffects(st *State, c *ssa.CallCommon, fams map[string]b
 		}
 		fams["G$alloc"] = true
 	}
+}
+
+func (x *Exec) staticCallEffects2(st *State, c *ssa.CallCommon, fams map[string]bool, depth int, shared func()) bool {
 	if c.IsInvoke() {
 		shared()
 		return true
@@ -1176,6 +1293,28 @@ func (x *Exec) staticCallEffects(st *State, c *ssa.CallCommon, fams map[string]b
 		}
 		fams["G$ncalls$"+callee.RelString(callee.Package().Pkg)] = true
 		regSort("G$ncalls$"+callee.RelString(callee.Package().Pkg), SInt)
+		for k := range x.V.ghostEffects(callee) {
+			regSort("G$"+k, SInt)
+			fams["G$"+k] = true
+			lbl := k[strings.Index(k, "$")+1:]
+			for _, n := range st.heapNames() {
+				if strings.HasPrefix(n, "G$arg$"+lbl+"$") || strings.HasPrefix(n, "G$ret$"+lbl+"$") || strings.HasPrefix(n, "G$panicked$"+lbl) || strings.HasPrefix(n, "G$panicval$"+lbl) || strings.HasPrefix(n, "G$sret$"+lbl+"$") || strings.HasPrefix(n, "G$sarg$"+lbl+"$") {
+					fams[n] = true
+				}
+			}
+		}
+		for _, cl := range fc.Of("ghost") {
+			if strings.HasPrefix(cl.Text, "label ") {
+				lbl := strings.TrimSpace(strings.TrimPrefix(cl.Text, "label "))
+				regSort("G$ncalls$"+lbl, SInt)
+				fams["G$ncalls$"+lbl] = true
+				for _, n := range st.heapNames() {
+					if strings.HasPrefix(n, "G$sret$"+lbl+"$") || strings.HasPrefix(n, "G$sarg$"+lbl+"$") {
+						fams[n] = true
+					}
+				}
+			}
+		}
 		for _, cl := range fc.Of("modifies") {
 			if cl.Loop != 0 {
 				continue
@@ -1502,4 +1641,46 @@ func (x *Exec) autoRangeIndex(st *State, fr *Frame, l *Loop) *Term {
 		return nil
 	}
 	return And(Ge(cv.Term, IntLit(-1)), Lt(cv.Term, lenT), Ge(lenT, IntLit(0)))
+}
+
+// applyIfaceContract: an assumed contract of an interface method of a dependency (e.g. context.Context.Value).
+func (x *Exec) applyIfaceContract(st *State, fr *Frame, dst ssa.Value, c *ssa.CallCommon, fc *FuncContract, recv *Val, args []*Val, pos token.Pos) {
+	name := typeName(c.Value.Type()) + "." + c.Method.Name()
+	x.note("assume-contract iface:" + name)
+	x.nilCheck(st, recv, "invoke:"+name, pos)
+	sig := c.Signature()
+	mkEnv := func() *Env {
+		env := &Env{V: x.V, X: x, St: st, Vars: map[string]*Val{}, Pkg: c.Method.Pkg(), Epoch: st.Epoch, OldEpoch: st.Epoch}
+		if env.Pkg == nil {
+			env.Pkg = fr.Fn.Package().Pkg
+		}
+		env.Vars["recv"] = recv
+		for k := 0; k < sig.Params().Len() && k < len(args); k++ {
+			env.Vars[sig.Params().At(k).Name()] = args[k]
+			env.Vars[fmt.Sprintf("arg%d", k)] = args[k]
+		}
+		return env
+	}
+	if !fc.Has("pure") {
+		x.interfere(st, "call "+name)
+	}
+	old := copyHeap(st.Heap)
+	var res []*Val
+	for i := 0; i < sig.Results().Len(); i++ {
+		v := freshVal(sig.Results().At(i).Type(), "res$"+sanitize(c.Method.Name()))
+		st.assumeValAllocated(v)
+		res = append(res, v)
+	}
+	env := mkEnv()
+	env.OldHeap = old
+	bindResults(env, sig, res)
+	if !fc.Has("nopanic") {
+		ps := x.fork(st)
+		pv := &Val{T: types.NewInterfaceType(nil, nil), Term: Fresh("panicval", SInt)}
+		x.startPanic(ps, pv, "callee "+name+" panics")
+	}
+	for _, cl := range fc.Of("ensures") {
+		st.Assume(x.V.evalBool(env, cl.E))
+	}
+	x.bindResult(fr, dst, res)
 }
